@@ -29,6 +29,12 @@ HasBin(v) == CASE v.k = "bin" -> TRUE
                [] v.k = "tup" -> \E i \in 1..Len(v.fs) : HasBin(v.fs[i])
                [] OTHER -> FALSE
 
+(* resources mentioned by a value *)
+RECURSIVE ResIn(_)
+ResIn(v) == CASE v.k = "res" -> {v.r}
+              [] v.k = "tup" -> UNION {ResIn(v.fs[i]) : i \in 1..Len(v.fs)}
+              [] OTHER -> {}
+
 (* pids mentioned by a value *)
 RECURSIVE PidsIn(_)
 PidsIn(v) == CASE v.k = "pid" -> {v.p}
